@@ -262,6 +262,11 @@ def blocked_interval_rule(ctx: Ctx, rid: str):
         if not any("self.project.attributes" in x and "leaves" in x for x in srcs):
             continue
         end_names = {x.id for x in ast.walk(loop.iter.args[1]) if isinstance(x, ast.Name)}
+        for _ in range(3):                 # ... and the names those are defined from (hi = min(end_idx, size))
+            for d_ in ast.walk(outer):
+                if isinstance(d_, ast.Assign) and any(isinstance(t_, ast.Name) and t_.id in end_names for t_ in d_.targets):
+                    end_names |= {x.id for x in ast.walk(d_.value) if isinstance(x, ast.Name)}
+        end_names -= {"size", "max", "min", "int", "self", "len"}
         ceil = [a for a in ast.walk(outer) if isinstance(a, ast.AugAssign) and isinstance(a.op, ast.Add) and isinstance(a.target, ast.Name)
                 and a.target.id in end_names and isinstance(a.value, ast.Constant) and a.value.value == 1
                 and any(isinstance(i, ast.If) and a in i.body and "idxToDate" in norm(i.test) and ".interval.end" in norm(i.test)
